@@ -37,14 +37,19 @@ func newLocalFile(path string, relPath string, info os.FileInfo) (f *localFile, 
 		if linkedPath, err = os.Readlink(path); err != nil {
 			return
 		}
-		if f.info, err = os.Stat(linkedPath); err != nil {
+		statPath := linkedPath
+		if !filepath.IsAbs(statPath) {
+			// A relative target is relative to where the link is
+			statPath = filepath.Join(filepath.Dir(path), statPath)
+		}
+		if f.info, err = os.Stat(statPath); err != nil {
 			return
 		}
 		if f.info.IsDir() {
 			err = filepath.SkipDir
 			return
 		}
-		f.meta.Link = linkedPath
+		f.meta.Link = statPath
 		f.metaEnc, err = encodeMeta(f.meta)
 		if err != nil {
 			return
